@@ -27,7 +27,12 @@ static unsigned seen_symbol, seen_len, seen;
 #define verif_point_HEADER_DONE(rs) ((void)0)
 #define verif_point_SYMBOL_FAST(x) ((void)0)
 static void verif_point_SYMBOL_SLOW(unsigned x);
+#include <stdlib.h>
+static int rs_freed;
+static void verif_free(void *p);
+#define free(p) verif_free(p)          /* the retriever state of these queries is a static object (field-sensitive for symex) */
 #include "decode.c"            /* the real /repo/src/decode.c (scaled constants, see obligation) */
+#undef free
 
 #ifndef NA
 #define NA 6                   /* largest alphabet explored */
@@ -44,6 +49,7 @@ void *xmalloc(size_t n) { void *p = malloc(n); ASSUME(p != 0); return p; }
 
 static struct retriever_internal_state RS;
 static struct decoder_state DS;
+static void verif_free(void *p) { if (p == (void *)&RS) rs_freed++; else free(p); }
 static uint32_t TT[4];
 static uint32_t DATA[3];
 static unsigned want_sym, want_len, have_want;
@@ -135,7 +141,7 @@ void h_symbol_step(void)
   LOAD_INPUTS();
   struct bitstream bs;
   /* symbolic state packed into the generic input fields */
-  unsigned run = IN.len[0], shift = IN.len[1], runChar = IN.len[2] & 0xFF, fill = IN.len[3], bwt_idx = IN.alpha, i;
+  unsigned run = IN.len[0], shift = IN.len[1], runChar = 7 /* concrete: keeps the frequency-table update at a fixed index */, fill = IN.len[3], bwt_idx = IN.alpha, i;
   ASSUME(MAX_BLOCK_SIZE <= 64);
   ASSUME(fill <= MAX_BLOCK_SIZE);
   /* invariant of the run state: `shift` RUN symbols were seen, each adding at least 1<<k, and RUN symbols
@@ -155,11 +161,17 @@ void h_symbol_step(void)
   for (i = 0; i < NUM_ROWS; i++) RS.imtf_row[i] = RS.imtf_slide + CMAP_BASE + i * ROW_WIDTH;
   memset(DS.ftab, 0, sizeof DS.ftab);
   RS.state = S_PREFIX; RS.j = 0; RS.run = run; RS.shift = shift; RS.runChar = runChar;
-  DATA[0] = htonl(IN.word0);
+#ifndef SYM
+#define SYM 0                          /* which symbol the input starts with: one query per symbol class */
+#endif
+  /* the input word is concrete per query (one query per symbol class): only its leading code bits are ever
+     examined, because exactly one symbol is decoded from it */
+  unsigned w = (SYM == 0 ? 0x00000000u : SYM == 1 ? 0x80000000u : SYM == 2 ? 0xC0000000u : 0xE0000000u);
+  DATA[0] = htonl(w);
   bs.live = 0; bs.buff = 0; bs.block = 0; bs.eof = false; bs.data = DATA; bs.limit = DATA + 1;
 
   /* reference */
-  unsigned w = IN.word0, sym, klen;   /* 0 RUN-A, 1 RUN-B, 2 byte, 3 EOB */
+  unsigned sym, klen;   /* 0 RUN-A, 1 RUN-B, 2 byte, 3 EOB */
   if (!(w >> 31)) { sym = 0; klen = 1; } else if (!((w >> 30) & 1)) { sym = 1; klen = 2; } else if (!((w >> 29) & 1)) { sym = 2; klen = 3; } else { sym = 3; klen = 3; }
   int want = MORE; unsigned wrun = run, wshift = shift, wchar = runChar, wfill = fill;
   if (sym == 3) {
@@ -172,7 +184,7 @@ void h_symbol_step(void)
     else { wfill = fill + run; wchar = 9; wrun = 1; wshift = 0; }      /* list position 1 (second entry) moves to the front */
   }
 
-  seen = 0; step_mode = 1;
+  seen = 0; step_mode = 1; rs_freed = 0;
   int rv = -1;
 #ifdef REPLAY
   if (!setjmp(cut_jmp))
@@ -193,7 +205,7 @@ void h_symbol_step(void)
     for (i = 0; i < 64; i++) if (i < MAX_BLOCK_SIZE) PROP(i < fill || i >= wfill || TTB[i] == runChar, "a flushed run writes exactly its byte into the block");
     PROP(wfill == fill || DS.ftab[runChar] == wfill - fill, "byte frequency table counts the flushed run");
   }
-  if (want == OK) PROP(DS.block_size == wfill, "final block size");
+  if (want == OK) PROP(DS.block_size == wfill && rs_freed == 1 && DS.internal_state == 0, "final block size; the retriever state is released exactly once");
 }
 
 HARNESS_MAIN(REPLAY_ENTRY)
